@@ -24,7 +24,8 @@ VERIF = os.path.dirname(os.path.dirname(os.path.abspath(__file__)))
 ABSENT = ["-absent-"]
 OPS = {"LISTSCRIPTS": ("listscripts", ()), "PUTSCRIPT": ("putscript", ("s", "keep;\r\n")),
        "HAVESPACE": ("havespace", ("s", 3)), "DELETESCRIPT": ("deletescript", ("s",)),
-       "SETACTIVE": ("setactive", ("s",)), "GETSCRIPT": ("getscript", ("s",))}
+       "SETACTIVE": ("setactive", ("s",)), "GETSCRIPT": ("getscript", ("s",)),
+       "LOGOUT": ("logout", ()), "CAPABILITY": ("capability", ())}
 C10_CLAUSES = ("NoScriptCmdBeforeAuth", "NoCredsBeforeTLS", "MechFromPostTLSCaps")
 C16_CLAUSES = ("MechRight", "MechFromPostTLSCaps", "ConnectTrueWithoutOK", "ConnectNotTrueAfterOK")
 
@@ -235,11 +236,16 @@ def replay(task):
                         except rfc5804.Malformed:
                             events.append(["write", cid, chan, "MALFORMED", ""])
                             return b'NO "malformed"\r\n'
+                        out = react(r)
                         for it in items:
                             if it[0] == "cmd":
                                 events.append(["write", cid, chan, it[1], ""])
                                 events.append(["reply", cid, it[1], r])
-                        return react(r)
+                                if it[1] == "CAPABILITY" and r == "OK":
+                                    out = b'"IMPLEMENTATION" "ref"\r\n"SASL" "GSSAPI EXTERNAL"\r\n"SIEVE" "fileinto"\r\nOK\r\n'
+                                if it[1] == "LOGOUT" and r != "NO":
+                                    sock.eof = True          # the server closes after its answer
+                        return out
                     s.server = opserver
             res = M.call(getattr(c, meth), *args)
         if res[0] == "ret":
@@ -380,6 +386,11 @@ CONFIGS = {
         {"maxcalls": 3, "prefs": [""], "tls": [True, False], "reactions": ["OK", "NO"],
          "ops": ["LISTSCRIPTS", "PUTSCRIPT"],
          "pairs": [{"pre": {"sasl": ["PLAIN", "LOGIN"], "tls": True}, "post": {"sasl": ["LOGIN"], "tls": False}}]},
+        # LOGOUT / CAPABILITY between connects and operations (no authentication needed, LOGOUT closes)
+        {"maxcalls": 3, "prefs": [""], "tls": [False], "reactions": ["OK", "NO"], "ops": ["LISTSCRIPTS", "LOGOUT", "CAPABILITY"],
+         "pairs": [{"pre": {"sasl": ["PLAIN"], "tls": False}, "post": {"sasl": ["PLAIN"], "tls": False}}]},
+        {"maxcalls": 2, "prefs": [""], "tls": [True], "reactions": ["OK", "NO", "BYE", "silence"], "ops": ["DELETESCRIPT", "LOGOUT", "CAPABILITY"],
+         "pairs": [{"pre": {"sasl": ["LOGIN"], "tls": True}, "post": {"sasl": ["PLAIN"], "tls": False}}]},
         # names that merely *contain* an implemented mechanism's name, and lower-case spellings
         {"maxcalls": 1, "prefs": ["", "LOGIN", "PLAIN"], "tls": [True, False], "reactions": ["OK", "NO"], "ops": ["LISTSCRIPTS"],
          "pairs": [{"pre": {"sasl": ["PLAIN", "LOGIN"], "tls": True}, "post": {"sasl": ["PLAIN-CLIENTTOKEN", "XOAUTH2", "NMAS_LOGIN"], "tls": False}},
@@ -396,6 +407,10 @@ CONFIGS = {
                    {"pre": {"sasl": ["PLAIN"], "tls": True}, "post": {"sasl": ABSENT, "tls": False}}]},
         {"maxcalls": 3, "prefs": [""], "tls": [True, False], "reactions": ["OK", "NO", "BYE"], "ops": ["LISTSCRIPTS", "PUTSCRIPT"],
          "pairs": [{"pre": {"sasl": ["PLAIN", "LOGIN"], "tls": True}, "post": {"sasl": ["LOGIN"], "tls": False}}]},
+        {"maxcalls": 4, "prefs": [""], "tls": [False], "reactions": ["OK", "NO"], "ops": ["LISTSCRIPTS", "LOGOUT", "CAPABILITY"],
+         "pairs": [{"pre": {"sasl": ["PLAIN"], "tls": False}, "post": {"sasl": ["PLAIN"], "tls": False}}]},
+        {"maxcalls": 3, "prefs": [""], "tls": [True, False], "reactions": ["OK", "NO", "BYE", "silence"], "ops": ["DELETESCRIPT", "LOGOUT", "CAPABILITY"],
+         "pairs": [{"pre": {"sasl": ["LOGIN"], "tls": True}, "post": {"sasl": ["PLAIN"], "tls": False}}]},
         {"maxcalls": 4, "prefs": [""], "tls": [True], "reactions": ["OK", "NO"], "ops": ["LISTSCRIPTS"],
          "pairs": [{"pre": {"sasl": ["PLAIN", "LOGIN"], "tls": True}, "post": {"sasl": ["LOGIN"], "tls": False}}]},
     ],
